@@ -8,7 +8,7 @@ from .. import aud, symx, nnm, nnm_rules as NR
 from ..aud import REL, W
 from ..symx import Tx
 from ..astutil import walk_local, stores, parent, ancestors
-from . import c07, c09, c06
+from . import c07, c09, c06, c05
 
 META = dict(
     text="Structural necessary conditions (N) plus two exact clauses (P): (R1) the selection is a set initialised with the earlier "
@@ -84,6 +84,8 @@ def run(chk):
     # only the random_order=True rows belong to C10 (the False rows are C11's, incl. K1)
     chk.obs = [o for o in chk.obs if not (o.rule == "C10.R3" and "random_order=False" in o.key)]
     chk.need("C10.R3", len([o for o in chk.obs if o.rule == "C10.R3"]), 6, "tests with an overall p-value")
+    # ... and appending observations leaves the old entries unchanged: non-anticipation of every estimator, bet and test (C05)
+    chk.borrow(c05.run, {"C05.R1": "C10.R3", "C05.R2": "C10.R3", "C05.R5": "C10.R3"})
     # R4 data order
     chk.borrow(c06.r4, {"C06.R4": "C10.R4"})
     chk.obs = [o for o in chk.obs if not (o.rule == "C10.R4" and o.key not in ("ascending-order", "aligned-pairs", "polling-data"))]
